@@ -475,7 +475,13 @@ clear_volatile(kdump_ctx_t *ctx, struct attr_data *attr)
 void
 clear_volatile_attrs(kdump_ctx_t *ctx)
 {
-	clear_volatile(ctx, gattr(ctx, GKI_dir_root));
+	struct attr_dict *dict;
+
+	/* A cloned dictionary holds only what was cloned; everything else
+	 * lives in its fallback dictionaries.
+	 */
+	for (dict = ctx->dict; dict; dict = dict->fallback)
+		clear_volatile(ctx, dgattr(dict, GKI_dir_root));
 }
 
 /**  Deallocate attribute (and its children).
